@@ -90,7 +90,8 @@ def rand_graph(rng, pcmci=False):
 
 
 def check(run, driver):
-    from common import ModuleEntryPoints
+    from common import ModuleEntryPoints, call_form
+    _form = [0]
     U = ModuleEntryPoints("causationentropy.graph.utils", "causationentropy.graph")     # both public paths, in turn
 
     run.rule = (
@@ -131,7 +132,8 @@ def check(run, driver):
         for sub in (subsets if gi % 4 == 0 or thorough else subsets[:6] + subsets[gi % len(subsets)::9]):
             vals = VALUES if (gi + len(sub)) % 3 else FALSY
             kw = {p: vals[p] for p in sub}
-            df = U.network_to_dataframe(G, **kw)
+            _form[0] += 1
+            df = call_form(U.network_to_dataframe, "network_to_dataframe", _form[0], G=G, **kw)      # every documented call form in turn
             case = {"nodes": [repr(n) for n in nodes], "edges": [(pos[a], pos[b], d) for a, b, d in edges], "metadata": kw}
             run.case("export", [case["nodes"], case["edges"], sorted(sub)], len(edges) >= 2, sample=case if len(edges) >= 2 else None)
             # ---- the property, directly
